@@ -29,6 +29,11 @@ CLAIMED["C17"] = ("5/C17",
    "Not covered: 'exactly once' over block-time sequences as a trace property; grid arithmetic over histories. Trusted: sdk.Context.CacheContext isolation, go/ssa.",
    "SSA guard-disjunct (phi-expanded) dominance rules, cache-context containment, loop/CFG shape rules")
 
+CLAIMED["C13"] = ("5/C13",
+   "Only the 'fails loudly outside the domain' clause and structural side conditions: every documented domain guard of Exp2, the exp2 approximant, LogBase2, CustomBaseLog, Pow, PowApprox, the monotone square roots, OrderOfMagnitude, DivIntByU64ToBigDec and the binary searches is a branch to a panic/error exit on every path to a normal return, compared against the documented constant (evaluated from the package initialiser); the square roots increment r exactly when r^2 < d in both precisions; rounding-mode dispatch selects the matching division; the listed functions do not write their arguments.",
+   "Not covered: every numeric error bound, monotonicity, binary-search post-conditions (numeric clauses no static argument in reach bounds). Trusted: math/big Sqrt, go/ssa.",
+   "SSA guard/dominance rules with constant evaluation + effect analysis")
+
 NOT_YET = "check not built yet in this revision (static rule set under construction; see DESIGN.md section 5)"
 
 def main():
